@@ -11,8 +11,11 @@ impl Catch { #[verifier::external_body] pub fn start(&self) -> u32 { 0 } #[verif
 pub struct Return { pub value: Option<Expr>, pub t: Token }
 impl Return { #[verifier::external_body] pub fn start(&self) -> u32 { 0 } }
 pub struct Try { pub block: Block, pub catches: Vec<Catch> }
+pub struct LyStr { pub p: usize }
+pub struct Arity { pub p: usize }
 pub struct LabelEmitter { pub next: u32 }
 impl LabelEmitter {
+  #[verifier::external_body] pub fn default() -> (r: LabelEmitter) ensures r.next == 0 { LabelEmitter { next: 0 } }
   #[verifier::external_body] pub fn emit(&mut self) -> (r: Label) ensures r.0 == old(self).next, final(self).next == old(self).next + 1 { Label(0) }
 }
 /// what the compiler was asked to do, in order; statements carry the try depth at which they were compiled
